@@ -364,6 +364,8 @@ pub struct Ctx {
     pub now_at_poll: u64,
     pub masks: Rc<epoll::Masks>,
     pub poisoned: bool,
+    /// the top-level operation performed last (None for a dispatch)
+    pub last_top: Option<Op>,
     /// idles inserted by callbacks: (ran count, inserted in dispatch number)
     pub idles: Vec<(u32, u32)>,
     /// end of the execution: monitors are off while reference cycles are being broken
@@ -795,6 +797,11 @@ impl Ctx {
             }
             if !a.enabled && en && dup && cur != Some(i) {
                 v.push(Op::Enable(i));
+            }
+            if !a.enabled && dis && dup && !in_cb {
+                // disabling it once more: whatever that call answers, the source that has taken
+                // the descriptor over is not to be disturbed
+                v.push(Op::Disable(i));
             }
             if !in_cb && c.top_release && self.rt[i].fdd.is_some() {
                 v.push(Op::Unwrap(i));
@@ -1478,6 +1485,13 @@ impl Ctx {
                     3
                 };
                 self.model_removed(j, by, is_self);
+            }
+            Op::Disable(j) if !self.m[j].enabled && self.m[j].shadowed => {
+                // repeated disable of a disabled source (the statement does not say what it
+                // answers); the step check that follows compares the newcomer's kernel entry
+                let tok = self.rt[j].token.expect("token");
+                let _ = self.h.disable(&tok);
+                self.clause("repeated-disable");
             }
             Op::Disable(j) => {
                 let tok = self.rt[j].token.expect("token");
@@ -2331,7 +2345,11 @@ impl Ctx {
             match pos {
                 None => {
                     let kind = self.m[*i].spec.name();
-                    self.violate(&["C16"], "epoll-missing", &[("kind", kind.into())],
+                    // lost right after a disable()/enable() of a *different* source: that call
+                    // disturbed this one (C07)
+                    let by_other = matches!(self.last_top, Some(Op::Disable(j)) | Some(Op::Enable(j)) if j != *i);
+                    let tags: &[&str] = if by_other { &["C16", "C07"] } else { &["C16"] };
+                    self.violate(tags, "epoll-missing", &[("kind", kind.into())],
                         format!("enabled actor {i} ({kind}) has no epoll entry with key {key:#x}; table={table:?}"));
                 }
                 Some(p) => {
@@ -2509,6 +2527,7 @@ pub fn run_history(cfg: &Rc<Cfg>, verbose: bool) -> (Outcome, Option<Vec<String>
         now_at_poll: 0,
         masks: masks(),
         poisoned: false,
+        last_top: None,
         idles: vec![],
         teardown: false,
         cb_self_req: false,
@@ -2702,6 +2721,7 @@ fn step(el: &mut EventLoop<'static, Ctx>, ctx: &mut Ctx, op: Op) -> bool {
     match op {
         Op::Dispatch | Op::DispatchWait | Op::DispatchShort | Op::DispatchNone => {
             ctx.transitions += 1;
+            ctx.last_top = None;
             let timeout = match op {
                 Op::Dispatch => Some(Duration::ZERO),
                 Op::DispatchWait => Some(Duration::from_nanos(10 * STEP_NS)),
@@ -2746,6 +2766,7 @@ fn step(el: &mut EventLoop<'static, Ctx>, ctx: &mut Ctx, op: Op) -> bool {
             }
         }
         other => {
+            ctx.last_top = Some(other);
             let r = catch_unwind(AssertUnwindSafe(|| ctx.apply(other)));
             if let Err(p) = r {
                 let msg = p
